@@ -928,11 +928,18 @@ impl<'a, 'src> Resolver<'a, 'src> {
 
   /// Compile the super token
   fn super_(&mut self, super_: &ast::Super<'src>) {
-    if self.class_info().is_none() {
-      self.error(
+    match self.class_info().map(|class_info| class_info.fun_kind) {
+      None => self.error(
         "Cannot use 'super' outside of a class.",
         Some(super_.super_.span()),
-      );
+      ),
+      // super needs the instance. There is none in a static method
+      // and the self of an enclosing method is another object
+      Some(Some(FunKind::Method | FunKind::Initializer)) => (),
+      Some(_) => self.error(
+        "Cannot use 'super' outside of class instance methods.",
+        Some(super_.super_.span()),
+      ),
     }
 
     // load self on top of stack
